@@ -2,10 +2,10 @@
 # tools/eval_seeded.sh <seeded-id> <check> [<check> ...]: run checks (quick tier, or $TIER) against a scratch worktree
 # built from seeded/<id>/patch.diff; the worktree is removed afterwards.
 id=$1; shift
-cd /verif
+cd "$(dirname "$0")/.."; V=$(pwd)
 wt=${HSVERIF_REGRESS_DIR:-/var/tmp}/hsev_$id.$$
 git -C /repo worktree add --detach -q $wt >/dev/null 2>&1 || { echo "cannot create worktree"; exit 2; }
-git -C $wt apply /verif/seeded/$id/patch.diff || { echo "patch does not apply"; git -C /repo worktree remove --force $wt; exit 2; }
+git -C $wt apply $V/seeded/$id/patch.diff || { echo "patch does not apply"; git -C /repo worktree remove --force $wt; exit 2; }
 for c in "$@"; do
   s=$(date +%s)
   out=$(HSVERIF_REPO=$wt ./check $c --tier ${TIER:-quick} 2>&1); rc=$?
